@@ -239,6 +239,27 @@ def build_site(case):
             leaf = site.add(sitegen.Page('http://%s/h/leaf%d.html' % (site.host, k), 'leaf'))
             sitegen.add_link(rng, site, hub.url, leaf.url, 'a', ['abs-path', 'absolute', 'relative'])
         site.features.add('hub-page')
+    if case.get('many_redirects'):
+        # more redirecting URLs in one crawl than any per-visit limit (--max-redirect is 20): each is a single hop to a
+        # landing page of its own, all linked from one page
+        hub = site.add(sitegen.Page('http://' + site.host + '/moved.html', 'html'))
+        sitegen.add_link(rng, site, site.start, hub.url, 'a', ['abs-path'])
+        for k in range(case['many_redirects']):
+            r = site.add(sitegen.Page('http://%s/mv/%d' % (site.host, k), 'redirect'))
+            r.status = rng.choice([301, 302, 303, 307, 308])
+            target = site.add(sitegen.Page('http://%s/art/%d.html' % (site.host, k), 'leaf'))
+            r.location = ('/art/%d.html' % k, target.url)
+            sitegen.add_link(rng, site, hub.url, r.url, 'a', ['abs-path', 'absolute', 'relative'])
+        site.features.add('many-redirects')
+    if case.get('robots_meta'):
+        # robots meta elements on some pages: the crawls run with --no-robots, which makes them plain pages
+        mrng = random.Random(case['site_seed'] ^ 0x5EED)
+        for url in sorted(site.pages):
+            page = site.pages[url]
+            if page.kind == 'html' and mrng.random() < 0.35:
+                page.extra_head += '<meta name="%s" content="%s">' % (mrng.choice(['robots', 'ROBOTS', 'Robots']),
+                                                                     mrng.choice(['nofollow', 'noindex, nofollow', 'none', 'NOFOLLOW']))
+                site.features.add('robots-meta-with-robots-off')
     return site
 
 
@@ -262,6 +283,10 @@ def worker(job):
             part.nontrivial_case(nontrivial_key(site, opts) + str(opts['concurrent']))
         orders.add(common.jhash([canon_request(e) for e in log]))
         part.count('conc_%d' % opts['concurrent'])
+        if case.get('many_redirects'):
+            part.count('crawls_with_more_than_20_redirecting_urls')
+        if case.get('robots_meta'):
+            part.count('crawls_over_pages_with_robots_meta_and_robots_off')
         if case.get('hub_links'):
             part.count('crawls_with_page_of_over_1000_links' if case['hub_links'] > 1000 else 'crawls_with_hub_page')
         if len(part.samples) < 2:
@@ -295,7 +320,11 @@ def main():
             site_seed = rng.randrange(1 << 30)
             opts = gen_options(rng)
             cases.append({'site_seed': site_seed, 'opts': opts, 'delay_seed': rng.randrange(1 << 30),
-                          'n_pages': rng.choice([3, 5, 8, 12, 20, 40]), 'link_redirect_targets': i % 10 == 9})
+                          'n_pages': rng.choice([3, 5, 8, 12, 20, 40]), 'link_redirect_targets': i % 10 == 9,
+                          'robots_meta': i % 3 == 1})
+            if i % 16 == 5:
+                cases[-1]['many_redirects'] = rng.choice([21, 25, 40, 64])
+                cases[-1]['opts'] = dict(opts, level=0 if opts['level'] in (0, 1) else opts['level'], accept_regex=None, reject_regex=None, no_parent=False)
             if check.thorough and i % 10 == 0:
                 # concurrency sweep on the same site
                 for c in (1, 2, 3, 4, 6, 8):
